@@ -454,7 +454,9 @@ def _pow(b, e):
     if e.denominator != 1: raise Degenerate('non-integer exponent')
     e = int(e)
     if e < 0 and b == 0: raise Degenerate('zero to a negative power')
-    return Fraction(b) ** e
+    b = Fraction(b)
+    if abs(e) > 24 or abs(b.numerator) > 10**9 or b.denominator > 10**9: raise Degenerate('power too large for an exact comparison')
+    return b ** e
 
 
 def aligned(val, order):
